@@ -205,3 +205,42 @@ Example C13_character_prefix_edge_example :
     (parse_markup (STR "  Bob:  hi  ")) =
   Some (STR "Bob:  hi", [(STR "character", 0, 6, [(STR "name", MStr (STR "Bob"))])]%Z).
 Proof. vm_compute. reflexivity. Qed.
+
+(* the prefix combined with markers: a document (plain text, escaped brackets, open / close /
+   close-all markers, any nesting) whose text reads `name: rest` yields the attributes of
+   C13_document_roundtrip followed by the character attribute over the prefix - markers inside the
+   name or around the colon included; hypothesis: no closed marker is itself called "character"
+   (then the implementation adds none) *)
+Theorem C13_document_with_character_prefix : forall its n t,
+  Forall item_ok its ->
+  text its = n ++ 58%N :: t -> forallb CP.no_colon n = true ->
+  no_edge_space (text its) ->
+  (forall encl e, enclosed its [] [] = Some encl -> In e encl -> str_eqb (fst e) (STR "character") = false) ->
+  match enclosed its [] [] with
+  | Some encl =>
+      exists attrs, parse_markup (render its) =
+          Some (text its, attrs ++ [{| aname := STR "character"; apos := 0;
+                                       alen := Z.of_nat (S (length n) + count_re_space t); asrc := 0;
+                                       aprops := [(STR "name", MStr (trim_space n))] |}]) /\
+        length attrs = length encl /\
+        (forall e, In e encl -> exists a, In a attrs /\ aname a = fst e /\ aprops a = [] /\
+                                          text_for_attribute (text its) a = Some (snd e)) /\
+        (forall a, In a attrs -> exists e, In e encl /\ aname a = fst e /\ aprops a = [] /\
+                                           text_for_attribute (text its) a = Some (snd e))
+  | None => parse_markup (render its) = None
+  end.
+Proof. exact CP.document_with_character_prefix. Qed.
+Print Assumptions C13_document_with_character_prefix.
+
+Definition ex_cdoc : list item :=
+  [IOpen (STR "b"); IText (STR "Bo"); IText [26085%N]; IClose (STR "b"); IText (STR ": "); IOpen (STR "a");
+   IText (STR "hi"); ICloseAll].
+Example C13_character_document_example :
+  Forall item_ok ex_cdoc /\ text ex_cdoc = (STR "Bo" ++ [26085%N]) ++ 58%N :: STR " hi" /\ no_edge_space (text ex_cdoc) /\
+  enclosed ex_cdoc [] [] = Some [(STR "b", STR "Bo" ++ [26085%N]); (STR "a", STR "hi")] /\
+  option_map (fun r => map (fun a => (aname a, apos a, alen a)) (snd r)) (parse_markup (render ex_cdoc)) =
+  Some [(STR "b", 0, 3); (STR "a", 5, 2); (STR "character", 0, 5)]%Z.
+Proof.
+  split; [|split; [vm_compute; reflexivity|split; [split; vm_compute; reflexivity|split; vm_compute; reflexivity]]].
+  repeat constructor; try (vm_compute; (reflexivity || discriminate || (left; reflexivity))).
+Qed.
